@@ -487,6 +487,7 @@ func checkC12(c *Ctx, r *Report) {
 	r.Undecidedcl = []string{"order of raw writes from concurrent writers (schedule property; single queue/single consumer is decided in C06)"}
 	r.Assumptions = []string{"closed world of appender implementations"}
 	ro := c.roles(r)
+	c.checkFanoutSemantics(r, ro, "C12.fanout-values")
 	lw := c.logType("LoggerWrapper")
 	if lw == nil {
 		r.Undecided("C12.anchor:handle", "", "LoggerWrapper not found")
